@@ -109,15 +109,14 @@ func (p *P9208AlarmSign) parse(data []byte) {
 	idLen := p.getTerminalIDLen()
 	if len(data) < idLen+8 {
 		// 数据长度不满足当前主动安全标准的报警标识 不解析
+		*p = P9208AlarmSign{ActiveSafetyType: p.ActiveSafetyType}
 		return
 	}
 	p.TerminalID = string(bytes.Trim(data[:idLen], "\x00"))
 	p.Time = utils.BCD2Time(data[idLen : idLen+6])
 	p.SerialNumber = data[idLen+6]
 	p.AttachNumber = data[idLen+7]
-	if len(data) >= idLen+8 {
-		p.AlarmReserve = data[idLen+8:]
-	}
+	p.AlarmReserve = data[idLen+8:]
 }
 
 func (p *P9208AlarmSign) encode() []byte {
